@@ -15,6 +15,7 @@ from spec_classes.utils.mutation import (
     mutate_attr,
     prepare_attr_value,
     protect_via_deepcopy,
+    thawed,
 )
 
 from .base import MethodDescriptor
@@ -509,7 +510,10 @@ class DeepCopyMethod(MethodDescriptor):
                 new.__dict__[attr] = protect_via_deepcopy(value, memo)
         __post_copy__ = getattr(new, "__post_copy__", None)
         if __post_copy__:
-            __post_copy__()
+            # The hook completes the construction of the copy; as in
+            # `__post_init__`, a frozen class may assign its attributes there.
+            with thawed(new):
+                __post_copy__()
         return new
 
     def build_method(self) -> Callable:
